@@ -40,11 +40,11 @@ def from_old_json_schema(claim, payload: bytes):
         fee = value["fee"]
         currency = list(fee.keys())[0]
         if currency == 'LBC':
-            stream.fee.lbc = Decimal(fee[currency]['amount'])
+            stream.fee.lbc = Decimal(str(fee[currency]['amount']))
         elif currency == 'USD':
-            stream.fee.usd = Decimal(fee[currency]['amount'])
+            stream.fee.usd = Decimal(str(fee[currency]['amount']))
         elif currency == 'BTC':
-            stream.fee.btc = Decimal(fee[currency]['amount'])
+            stream.fee.btc = Decimal(str(fee[currency]['amount']))
         else:
             raise DecodeError(f'Unknown currency: {currency}')
         stream.fee.address = fee[currency]['address']
